@@ -18,6 +18,9 @@ RULE = (
     'values, declared-but-unobserved categories, an unordered Categorical with unsorted categories in the '
     'alias pairs, a work frame updated in place between evaluations, the data-frame view of every new-data '
     'result. '
+    'Later: the data argument by keyword, blank-variant values, 1200-row new frames and frames lacking a '
+    'value, reported trials overwritten by the caller, trials equal to the largest count, objects named like '
+    'the helpers in the namespace. '
 )
 ASSUMPTIONS = ["new frames are made of rows of the training frame (C06 space); values outside the training frame are C10's business"]
 
